@@ -248,20 +248,14 @@ def rule_wexpect(roles):
     # comparisons between the inspected token's payload and the &str parameter
     cmp_true_edges = []
     kind_problems = []
-    for bb in sorted(e.live_blocks):
-        t = e.blocks[bb]['term']
-        if t['k'] != 'switch':
-            continue
-        src = bool_source(e, t['discr'])
-        if src is None:
-            continue
-        tc, parity = src
+    def qualifies(tc):
+        """None = not a comparison with the expected text; (ok, kinds)"""
         if tc.callee not in ('std::cmp::PartialEq::eq', 'std::cmp::PartialEq::ne'):
-            continue
+            return None
         sides = [trace_operand(e, a, through_calls=THROUGH | {'std::string::ToString::to_string'}) for a in tc.args[:2]]
         is_param = [any(o.kind == 'param' and o.data == 2 for o in s) for s in sides]
         if not any(is_param):
-            continue
+            return None
         # the token side must be the payload of a punctuation-kind variant (extracted under a
         # downcast), possibly rendered by a local helper of that payload
         tok_side = sides[0] if is_param[1] else sides[1]
@@ -269,9 +263,42 @@ def rule_wexpect(roles):
         for o in tok_side:
             kinds |= _variant_of(e, o)
         allowed = {'Operator', 'Delim', 'Comma', 'Semicolon'}
-        if not kinds or not kinds <= allowed:
-            kind_problems.append((tc, sorted(kinds)))
+        return (bool(kinds) and kinds <= allowed, sorted(kinds))
+
+    for bb in sorted(e.live_blocks):
+        t = e.blocks[bb]['term']
+        if t['k'] != 'switch':
             continue
+        src = bool_source(e, t['discr'])
+        tc = None
+        parity = 0
+        if src is not None:
+            tc, parity = src
+            q = qualifies(tc)
+            if q is None:
+                continue
+            if not q[0]:
+                kind_problems.append((tc, q[1]))
+                continue
+        else:
+            # a bool local fed by several comparison results and constant false (match producing a bool)
+            bv = _bool_value_defs(e, t['discr'])
+            if bv is None:
+                continue
+            root, parity, defs = bv
+            calls = [d for d in defs if d[0] == 'call']
+            if not calls or any(d[0] == 'other' for d in defs) or any(d[0] == 'const' and d[1] for d in defs):
+                continue
+            qs = [qualifies(d[1]) for d in calls]
+            if any(q is None for q in qs):
+                continue
+            badq = [(d[1], q[1]) for d, q in zip(calls, qs) if not q[0]]
+            if badq:
+                kind_problems.extend(badq)
+                continue
+            if any(d[1].callee.endswith('::ne') for d in calls):
+                continue
+            tc = calls[0][1]
         truth_for_eq = 1 ^ parity ^ (1 if tc.callee.endswith('::ne') else 0)
         listed = [v for v, _ in t['targets']]
         for v, tb in switch_edges(e, bb):
@@ -300,6 +327,37 @@ def rule_wexpect(roles):
         obs.append(bad('WEXPECT', 'WEXPECT|never-ok', 'the expected-token check has no success path', e.where(), body=e.name))
     # the check consumes the inspected token: a TOKEN-NEXT call on every Ok path is the companion
     return obs
+
+
+def _bool_value_defs(body, op):
+    """switch discriminant that is a bool local with several definitions: (root local, parity,
+    [('call', Call) | ('const', 0/1) | ('other',)])"""
+    from facts import op_const_int
+    du = defuse(body)
+    l = op_local(op)
+    parity = 0
+    for _ in range(10):
+        if l is None:
+            return None
+        defs = du.defs.get(l, [])
+        if len(defs) == 1 and defs[0][2] == 'assign':
+            rv = defs[0][3]
+            if rv['k'] == 'use' and op_local(rv['op']) is not None:
+                l = op_local(rv['op']); continue
+            if rv['k'] == 'unop' and rv['op'] == 'Not':
+                parity ^= 1; l = op_local(rv['a']); continue
+        break
+    if l is None or body.locals[l]['ty'] != 'bool':
+        return None
+    out = []
+    for (b, i, kind, payload, dproj) in du.defs.get(l, []):
+        if kind == 'call':
+            out.append(('call', payload))
+        elif kind == 'assign' and payload['k'] == 'use' and payload['op']['k'] == 'const':
+            out.append(('const', op_const_int(payload['op'])))
+        else:
+            out.append(('other',))
+    return (l, parity, out) if len(out) > 1 else None
 
 
 def _variant_of(body, o, depth=0):
